@@ -44,6 +44,12 @@ func (am *Machine) handleReinitDKG(operation *client.Operation) error {
 		if !o.Event.IsEmpty() || fsm.State(o.Type) == signature_proposal_fsm.StateAwaitParticipantsConfirmations {
 			continue
 		}
+		// the reinit operation restores one round: an embedded operation of any other round must
+		// not be carried out (it would leave that round's key material behind even when the reinit
+		// operation itself is then refused)
+		if o.DKGIdentifier != operation.DKGIdentifier {
+			continue
+		}
 		if _, err := am.GetOperationResult(o); err != nil {
 			return fmt.Errorf("failed to process operation: %w", err)
 		}
